@@ -21,6 +21,40 @@ func IsNodeType(t reflect.Type) bool {
 	return t.Implements(nodeIface) || reflect.PtrTo(t).Implements(nodeIface)
 }
 
+// Descend, when set, is given every struct value after it was reported and returns the value
+// whose fields are walked instead (see SharedDerivedTableOnce).
+var Descend func(reflect.Value) reflect.Value
+
+// SharedDerivedTableOnce is a Descend function: the parser records the table in front of the
+// first JOIN both in SelectStatement.From and as that join's Left; when it is a derived table
+// both hold the same *SelectStatement. That query is one object of the tree, attached at From:
+// below a SelectStatement the join's Left is walked without it.
+func SharedDerivedTableOnce(v reflect.Value) reflect.Value {
+	sel, ok := v.Interface().(ast.SelectStatement)
+	if !ok || len(sel.Joins) == 0 {
+		return v
+	}
+	changed := false
+	joins := append([]ast.JoinClause(nil), sel.Joins...)
+	for i := range joins {
+		if joins[i].Left.Subquery == nil {
+			continue
+		}
+		for k := range sel.From {
+			if sel.From[k].Subquery == joins[i].Left.Subquery {
+				joins[i].Left.Subquery = nil
+				changed = true
+				break
+			}
+		}
+	}
+	if !changed {
+		return v
+	}
+	sel.Joins = joins
+	return reflect.ValueOf(sel)
+}
+
 // Reachable calls f for every node-typed struct value reachable from v
 // through exported fields, pointers, interfaces, slices, arrays and maps.
 // f receives the struct value (never a pointer).
@@ -54,6 +88,9 @@ func Reachable(v reflect.Value, f func(reflect.Value)) {
 		case reflect.Struct:
 			if IsNodeType(v.Type()) {
 				f(v)
+			}
+			if Descend != nil {
+				v = Descend(v)
 			}
 			for i := 0; i < v.NumField(); i++ {
 				if v.Type().Field(i).PkgPath != "" {
